@@ -20,6 +20,7 @@ type State struct {
 	observe []Observation
 	nowSeq  int
 	lastNow *Term
+	model   Model // a model of pc (counterexample cache), or nil
 }
 
 type regionRec struct {
@@ -51,6 +52,12 @@ func (s *State) fork() *State {
 		nowSeq:  s.nowSeq,
 		lastNow: s.lastNow,
 	}
+	if s.model != nil {
+		n.model = make(Model, len(s.model))
+		for k, v := range s.model {
+			n.model[k] = v
+		}
+	}
 	for k, v := range s.heap {
 		n.heap[k] = v
 	}
@@ -69,6 +76,9 @@ func (s *State) fork() *State {
 func (s *State) assume(t *Term) {
 	if t.IsTrue() {
 		return
+	}
+	if s.model != nil && !modelHolds(s.model, t) {
+		s.model = nil
 	}
 	s.pc = append(s.pc[:len(s.pc):len(s.pc)], t)
 }
@@ -444,6 +454,10 @@ func (e *Engine) mergeStates(a, b *State, extra func(g *Term) bool) (*State, boo
 		observe: obs,
 		nowSeq:  a.nowSeq,
 		lastNow: a.lastNow,
+		model:   a.model,
+	}
+	if out.model == nil {
+		out.model = b.model
 	}
 	if b.next > out.next {
 		out.next = b.next
